@@ -581,6 +581,10 @@ func (b *broker) syncRemoveSession(subscriber *wamp.Session) {
 		// Remove subscribed session from subscription.
 		delete(sub.subscribers, subscriber)
 
+		// Fired when a session is removed from a subscription, also when it
+		// is removed because the session has ended.
+		b.syncPubSubMeta(wamp.MetaEventSubOnUnsubscribe, subscriber.ID, subID)
+
 		// If no more subscribers on this subscription.
 		if len(sub.subscribers) == 0 && !b.syncKeepsHistory(sub) {
 			b.syncDelSubscription(sub)
